@@ -214,6 +214,7 @@ pub fn label_features(info: &FrameInfo, ctx: &mut CaseCtx) -> bool {
     ctx.feat_if(h.single_segment, "hdr:single_segment");
     ctx.feat_if(h.checksum_flag, "hdr:checksum");
     ctx.feat_if(h.dict_id.is_some(), "hdr:dict_id");
+    ctx.feat_if(h.dict_id.is_none() && h.dict_id_bytes > 0, "hdr:dict_id_field_holding_zero");
     ctx.feat(match h.fcs_bytes {
         0 => "hdr:fcs0",
         1 => "hdr:fcs1",
